@@ -186,7 +186,9 @@ func stacklessWriteGzip(ctx any) {
 	stacklessWriteGzipOnce.Do(func() {
 		stacklessWriteGzipFunc = stackless.NewFunc(nonblockingWriteGzip)
 	})
-	stacklessWriteGzipFunc(ctx)
+	if !stacklessWriteGzipFunc(ctx) {
+		nonblockingWriteGzip(ctx)
+	}
 }
 
 func nonblockingWriteGzip(ctxv any) {
@@ -293,7 +295,9 @@ func stacklessWriteDeflate(ctx any) {
 	stacklessWriteDeflateOnce.Do(func() {
 		stacklessWriteDeflateFunc = stackless.NewFunc(nonblockingWriteDeflate)
 	})
-	stacklessWriteDeflateFunc(ctx)
+	if !stacklessWriteDeflateFunc(ctx) {
+		nonblockingWriteDeflate(ctx)
+	}
 }
 
 func nonblockingWriteDeflate(ctxv any) {
